@@ -252,11 +252,11 @@ def run_paramcls(case):
           top.sel @= Bits1(inp["sel"])
           top.sim_eval_combinational()
           o, q = ref.comb(inp)
-          got = ([int(x) for x in top.o], [int(x) for x in top.q])
+          got = ([int(x) for x in top.o], [int(x) for x in top.q], [int(x) for x in top.so])
           D.add(which, sched, t, got)
-          if got != (o, q):
+          if got != (o, q, ref.so()):
             viols.append(C.viol("value_mismatch", {"sched": sched, "sched_seed": sseed, "where": "eval@%d" % t,
-                                                   "elaboration": which, "params": params, "got": got, "want": [o, q],
+                                                   "elaboration": which, "params": params, "got": got, "want": [o, q, ref.so()],
                                                    "family": "paramcls"}))
             break
           top.sim_tick()
